@@ -120,4 +120,120 @@ def expected {α : Type} (parts : List α) (k : Nat) : Out α :=
   | some a => .item a
   | none => .stop
 
+-- ================================================================== the rest of the sequence protocol (round 5)
+
+/-- Python's `slice.indices(n)` + list slicing: `l[start:stop:step]`; `none` = ValueError (step 0).
+    A bound that is omitted is `none`. -/
+def pySlice {α : Type} (l : List α) (start stop step : Option Int) : Option (List α) :=
+  let n : Int := l.length
+  let st : Int := step.getD 1
+  if st = 0 then none
+  else
+    let lower : Int := if st > 0 then 0 else -1
+    let upper : Int := if st > 0 then n else n - 1
+    let clamp (x : Int) : Int := if x < 0 then (if x + n < lower then lower else x + n) else (if x > upper then upper else x)
+    let a : Int := match start with
+      | none => if st > 0 then lower else upper
+      | some x => clamp x
+    let b : Int := match stop with
+      | none => if st > 0 then upper else lower
+      | some x => clamp x
+    let count : Nat := if st > 0 then (if a < b then ((b - a + st - 1) / st).toNat else 0)
+                       else (if b < a then ((a - b + (-st) - 1) / (-st)).toNat else 0)
+    some ((List.range count).filterMap (fun (k : Nat) => l[(a + (k : Int) * st).toNat]?))
+
+/-- `x in c`: no `__contains__`, so Python iterates (`__iter__`) and compares; parts compare by identity -/
+def contains {α : Type} [DecidableEq α] (parts : List α) (a : α) : Bool := parts.any (fun p => p = a)
+
+/-- operations of the extended protocol.  `riter` is `reversed(c)`: neither class defines `__reversed__`, Python falls
+    back to the sequence protocol (`__len__` once, then `__getitem__(n-1), …, __getitem__(0)`).  `index` / `count`
+    stand for the list methods the containers do NOT have (AttributeError). -/
+inductive Op3 (α : Type)
+  | iter                       -- forward handle
+  | riter                      -- reversed handle
+  | next (h : Nat)
+  | len
+  | getitem (i : Int)
+  | set (i : Int) (a : α)
+  | contains (a : α)
+  | slice (start stop step : Option Int)
+  | noattr                     -- c.index(x) / c.count(x) / del c[i]
+
+inductive Out3 (α : Type)
+  | handle (h : Nat)
+  | item (a : α)
+  | stop
+  | length (n : Nat)
+  | indexError
+  | badHandle
+  | bool (b : Bool)
+  | items (l : List α)
+  | valueError
+  | attributeError
+  deriving Repr, DecidableEq
+
+/-- one cursor per handle; `true` marks a reversed handle, whose cursor counts the items already delivered from the
+    END (the length of these containers never changes: `__setitem__` with an integer index replaces) -/
+structure State3 where
+  cursors : List (Bool × Nat) := []
+  deriving Repr, DecidableEq
+
+/-- what a handle looks at: the parts, from the front or from the back -/
+def view {α : Type} (rev : Bool) (parts : List α) : List α := if rev then parts.reverse else parts
+
+def step3 {α : Type} [DecidableEq α] (ps : List α × State3) : Op3 α → (List α × State3) × Out3 α
+  | .iter => ((ps.1, { cursors := ps.2.cursors ++ [(false, 0)] }), .handle ps.2.cursors.length)
+  | .riter => ((ps.1, { cursors := ps.2.cursors ++ [(true, 0)] }), .handle ps.2.cursors.length)
+  | .next h =>
+    match ps.2.cursors[h]? with
+    | none => (ps, .badHandle)
+    | some (rev, c) =>
+      match (view rev ps.1)[c]? with
+      | some a => ((ps.1, { cursors := ps.2.cursors.set h (rev, c + 1) }), .item a)
+      | none => (ps, .stop)
+  | .len => (ps, .length ps.1.length)
+  | .getitem i =>
+    match pyIndex ps.1 i with
+    | some a => (ps, .item a)
+    | none => (ps, .indexError)
+  | .set i a =>
+    match setItem ps.1 i a with
+    | some ps' => ((ps', ps.2), .length ps'.length)
+    | none => (ps, .indexError)
+  | .contains a => (ps, .bool (contains ps.1 a))
+  | .slice a b st =>
+    match pySlice ps.1 a b st with
+    | some l => (ps, .items l)
+    | none => (ps, .valueError)
+  | .noattr => (ps, .attributeError)
+
+def run3 {α : Type} [DecidableEq α] : (List α × State3) → List (Op3 α) → (List α × State3) × List (Out3 α)
+  | ps, [] => (ps, [])
+  | ps, o :: os =>
+    let r := step3 ps o
+    let rs := run3 r.1 os
+    (rs.1, r.2 :: rs.2)
+
+/-- the outputs of the `next h` calls of an extended run, in order -/
+def nextOutputs3 {α : Type} (h : Nat) : List (Op3 α) → List (Out3 α) → List (Out3 α)
+  | Op3.next h' :: ops, o :: os => if h' = h then o :: nextOutputs3 h ops os else nextOutputs3 h ops os
+  | _ :: ops, _ :: os => nextOutputs3 h ops os
+  | _, _ => []
+
+def expected3 {α : Type} (l : List α) (k : Nat) : Out3 α :=
+  match l[k]? with
+  | some a => .item a
+  | none => .stop
+
+/-- a run that does not assign -/
+def noSet {α : Type} : List (Op3 α) → Bool
+  | [] => true
+  | Op3.set _ _ :: _ => false
+  | _ :: ops => noSet ops
+
+def countNext3 {α : Type} (h : Nat) : List (Op3 α) → Nat
+  | [] => 0
+  | Op3.next h' :: ops => (if h' = h then 1 else 0) + countNext3 h ops
+  | _ :: ops => countNext3 h ops
+
 end Model.IterProto
